@@ -289,8 +289,95 @@ def K7_two_qubits(rep, flow: Flow):
                 rep.ok("K7", 1, nontrivial=(c0, c1), sample=f"({list(c0)},{list(c1)}) -> {rec.log}")
 
 
+def _eye(n):
+    return Mat([[int(i == j) for j in range(n)] for i in range(n)], 2)
+
+
+def _k6_judge(rep, nq, coef, cs, res):
+    combs = [[sum(coef[4 * q + k] * cs[k][j] for k in range(4)) % 2 for j in range(4)] for q in range(nq)]
+    dets = [(c[0] * c[3] - c[1] * c[2]) % 2 for c in combs]
+    key = f"coef:{nq}:{''.join(map(str, coef))}"
+    if res is None:
+        if all(d == 1 for d in dets):
+            rep.finding("K6", key, f"find_local_clifford_layer.py find_local_clifford_layer: coefficient pattern {list(coef)} ({nq} qubit(s)) combines to the invertible block(s) {combs} but is rejected by the validity filter (a valid layer is missed)")
+        else:
+            rep.ok("K6", 1, nontrivial=(nq, coef))
+        return
+    ok_shape = isinstance(res, (list, tuple)) and len(res) == 4 and all(isinstance(m, Mat) and m.shape == (nq, nq) for m in res)
+    if not ok_shape:
+        rep.finding("K6", key, f"find_local_clifford_layer.py find_local_clifford_layer: pattern {list(coef)} returns {res!r}, not four {nq}x{nq} blocks")
+        return
+    blocks = [[res[j].d[q][q] for j in range(4)] for q in range(nq)]
+    off = [res[j].d[a][b] for j in range(4) for a in range(nq) for b in range(nq) if a != b]
+    if not all(d == 1 for d in dets):
+        rep.finding("K6", key, f"find_local_clifford_layer.py find_local_clifford_layer: coefficient pattern {list(coef)} passes the validity filter but combines to the singular block(s) {combs}: the returned layer is not a Clifford")
+    elif blocks != combs or any(off):
+        rep.finding("K6", key, f"find_local_clifford_layer.py find_local_clifford_layer: pattern {list(coef)} returns blocks {blocks} (off-diagonal {off}), the combination of the basis blocks is {combs}")
+    else:
+        rep.ok("K6", 1, nontrivial=(nq, coef), sample=f"{list(coef)} -> blocks {blocks} (det 1)")
+
+
+def _k6_by_kernel_stub(rep, flow):
+    """shape-independent form: the WHOLE search function is evaluated with the kernel routine replaced by a stub that
+    hands back one chosen coefficient vector; the span of that kernel is {0, vector}, so the function's answer is its
+    verdict on that vector.  The basis blocks are read off the answers to the four unit vectors."""
+    prog = flow.prog
+    f = prog.func(FLC)
+    ns = [g for g in prog.closure([f], may=True) if g.name == "null_space"]
+    if len(ns) != 1:
+        raise AnalysisError(f"{FLC}: expected exactly one kernel routine (null_space) among its callees, found {[g.fq for g in ns]}")
+    ce = CE(prog, max_steps=400_000_000)
+
+    def verdict(nq, coef):
+        calls = []
+
+        def stub(*a, **k):
+            calls.append(1)
+            return Mat([list(coef)], 2)
+        ce.stubs = {ns[0].fq: stub}
+        g = _graph(ce, prog, nq, [])
+        # operators X_q: every qubit is acted on (a search that leaves untouched qubits out sees all of them)
+        res = ce.call_func(f, [_eye(nq), Mat.zeros((nq, nq)), g], {})
+        if len(calls) != 1:
+            # the answer did not come out of the kernel (a fast path, a second solve ...): the stub decides nothing
+            raise consteval.Unsupported(f"the search consulted the kernel routine {len(calls)} time(s) on the probe input, expected once")
+        return res
+
+    cs = []
+    for k in range(4):
+        unit = tuple(int(i == k) for i in range(4))
+        res = verdict(1, unit)
+        if not (isinstance(res, (list, tuple)) and len(res) == 4 and all(isinstance(m, Mat) and m.shape == (1, 1) for m in res)):
+            raise consteval.Unsupported(f"basis block {k} cannot be read off: the unit coefficient vector {list(unit)} is answered with {res!r}")
+        cs.append([res[j].d[0][0] for j in range(4)])
+    rep.analysed["K6 basis order (answers of the search to the four unit coefficient vectors, kernel routine stubbed)"] = cs
+    # the four blocks must span all 2x2 matrices over GF(2): otherwise some Clifford cannot be expressed at all
+    span = set()
+    for coef in itertools.product((0, 1), repeat=4):
+        span.add(tuple(sum(coef[k] * cs[k][j] for k in range(4)) % 2 for j in range(4)))
+    if len(span) != 16:
+        rep.finding("K6", "basis:span", f"find_local_clifford_layer.py find_local_clifford_layer: the four basis blocks {cs} are linearly dependent: only {len(span)} of the 16 combinations are reachable, a valid layer can be missed")
+    for nq in (1, 2):
+        for coef in itertools.product((0, 1), repeat=4 * nq):
+            _k6_judge(rep, nq, coef, cs, verdict(nq, coef))
+    rep.analysed["K6 form"] = f"whole-function evaluation with {ns[0].fq} stubbed ({ce.steps} evaluation steps)"
+    flow._k6_stub = (cs, ce, f, ns[0].fq)
+
+
 def K6_filter(rep, flow: Flow):
     rep.rule("K6", "validity filter of the layer search: over all 16 coefficient patterns of one qubit and all 256 of two qubits, a candidate is accepted exactly when every qubit's combination of basis blocks is invertible (a genuine single-qubit Clifford), and the returned blocks are those combinations at the right diagonal positions", floor=272, exhaustive=True)
+    try:
+        _k6_by_kernel_stub(rep, flow)
+        return
+    except (consteval.Unsupported, CERaise) as ex:
+        rep.note(f"K6: whole-function evaluation not possible ({str(ex)[:160]}); falling back to the candidate loop of the function body")
+        rep.findings[:] = [x for x in rep.findings if x.rule != "K6"]
+        rep.rules["K6"]["instances"] = 0
+        rep.rules["K6"]["nontrivial"] = set()
+    _k6_by_loop(rep, flow)
+
+
+def _k6_by_loop(rep, flow: Flow):
     prog = flow.prog
     f = prog.func(FLC)
     ce = CE(prog)
@@ -349,11 +436,81 @@ def K6_filter(rep, flow: Flow):
                     rep.ok("K6", 1, nontrivial=(nq, coef), sample=f"{list(coef)} -> blocks {blocks} (det 1)")
 
 
+def _k9_by_kernel_stub(rep, flow):
+    """for kernels of 2 and 3 rows (two qubits) and every non-empty subset T of the rows: a kernel is constructed in which
+    the sum over T is the ONLY valid candidate of the span; the search must answer with exactly that candidate"""
+    cs, ce, f, nsfq = flow._k6_stub
+    prog = flow.prog
+    nq = 2
+
+    def blocks_of(v):
+        return [[sum(v[4 * q + k] * cs[k][j] for k in range(4)) % 2 for j in range(4)] for q in range(nq)]
+
+    def valid(v):
+        return all((c[0] * c[3] - c[1] * c[2]) % 2 == 1 for c in blocks_of(v))
+
+    vecs = [v for v in itertools.product((0, 1), repeat=4 * nq) if any(v)]
+
+    def xor(rows):
+        return tuple(sum(r[i] for r in rows) % 2 for i in range(4 * nq))
+    n_ok = 0
+    for r in (2, 3):
+        subsets = [T for k in range(1, r + 1) for T in itertools.combinations(range(r), k)]
+        for T in subsets:
+            def extend(rows):
+                k = len(rows)
+                if k == r:
+                    return rows
+                for v in vecs:
+                    if v in rows:
+                        continue
+                    cand = rows + [v]
+                    if all(valid(xor([cand[i] for i in U])) == (U == T) for U in subsets if max(U) == k):
+                        got = extend(cand)
+                        if got is not None:
+                            return got
+                return None
+            found = extend([])
+            if found is None:
+                rep.note(f"K9: no witness kernel with {r} rows for subset {T} under the basis read off in K6")
+                continue
+            calls = []
+
+            def stub(*a, _rows=found, **k):
+                calls.append(1)
+                return Mat([list(x) for x in _rows], 2)
+            ce.stubs = {nsfq: stub}
+            g = _graph(ce, prog, nq, [])
+            res = ce.call_func(f, [_eye(nq), Mat.zeros((nq, nq)), g], {})
+            if len(calls) != 1:
+                raise consteval.Unsupported(f"the search consulted the kernel routine {len(calls)} time(s) on the probe input, expected once")
+            want = blocks_of(xor([found[i] for i in T]))
+            got = None
+            if isinstance(res, (list, tuple)) and len(res) == 4 and all(isinstance(m, Mat) and m.shape == (nq, nq) for m in res):
+                got = [[res[j].d[q][q] for j in range(4)] for q in range(nq)]
+            if got != want:
+                rep.finding("K9", f"{FLC}:span:{r}:{T}", f"find_local_clifford_layer.py find_local_clifford_layer: with the kernel rows {[list(x) for x in found]} the only valid candidate of the span is the sum of rows {list(T)} (blocks {want}); the search answers {got}: the kernel span is not searched completely (a valid layer can be missed)")
+            else:
+                n_ok += 1
+    if n_ok:
+        rep.ok("K9", n_ok, nontrivial="span-by-evaluation", sample=f"{n_ok} witness kernels (2 and 3 rows, every subset of rows): the single valid element of the span is found")
+
+
 def K9_enumeration(rep, flow: Flow):
-    rep.rule("K9", "the candidate set is product([0,1], repeat=r) with r the number of kernel basis rows, multiplied by that same kernel: the whole kernel span is searched", floor=1)
+    rep.rule("K9", "the whole span of the kernel basis is searched: (a) evaluated with the kernel routine stubbed - for kernels of 2 and 3 rows and every non-empty subset of the rows, the one valid candidate placed at that subset's sum is found; (b) where the enumeration is written as product([0,1], repeat=r) x kernel in the function itself, r is the number of kernel rows", floor=1)
     f = flow.prog.func(FLC)
+    by_eval = False
+    if getattr(flow, "_k6_stub", None) is not None:
+        try:
+            _k9_by_kernel_stub(rep, flow)
+            by_eval = True
+        except (consteval.Unsupported, CERaise) as ex:
+            rep.note(f"K9: evaluation with a stubbed kernel not possible ({str(ex)[:120]})")
     prods = [n for n in ast.walk(f.node) if isinstance(n, ast.Call) and ast.unparse(n.func).endswith("product")]
     if len(prods) != 1:
+        if by_eval:
+            rep.note("K9: the enumeration is not written as one itertools.product call in the function body; decided by evaluation (a) alone")
+            return
         raise AnalysisError(f"{FLC}: expected one itertools.product call, found {len(prods)}")
     p = prods[0]
     rk = next((k.value for k in p.keywords if k.arg == "repeat"), None)
